@@ -402,6 +402,29 @@ func runC18(r *Run) {
 		c18Pair(r, val.Just(types.Str, a), val.Just(types.Str, b), false)
 		r.Count("pair:escape-spelling")
 	}
+	// composites whose renderings coincide once the quotes around strings are dropped (a set keyed by the string()
+	// conversion instead of the canonical rendering would merge them)
+	{
+		sl := func(xs ...string) *val.Val {
+			vs := make([]*val.Val, len(xs))
+			for i, x := range xs {
+				vs[i] = val.Str(x)
+			}
+			return mkList(types.Str, vs...)
+		}
+		c18Pair(r, sl("a, b"), sl("a", "b"), false)
+		c18Pair(r, sl("é, ü"), sl("é", "ü"), false)
+		c18Pair(r, sl("1", "2"), sl("1, 2"), false)
+		c18Pair(r, mkList(types.List(types.Str), sl("a], [b")), mkList(types.List(types.Str), sl("a"), sl("b")), false)
+		c18Pair(r, mkMap(types.Str, types.Str, val.Str("j"), val.Str("w, \"k\": v")), mkMap(types.Str, types.Str, val.Str("j"), val.Str("w"), val.Str("k"), val.Str("v")), false)
+		c18Pair(r, mkMap(types.Str, types.Str, val.Str("j"), val.Str("w, k: v")), mkMap(types.Str, types.Str, val.Str("j"), val.Str("w"), val.Str("k"), val.Str("v")), false)
+		ot := types.Obj([]types.Field{{Name: "s", Val: types.Str}, {Name: "t", Val: types.Str}})
+		c18Pair(r, mkObj(ot, val.Str("x, t: y"), val.Str("z")), mkObj(ot, val.Str("x"), val.Str("y, t: z")), false)
+		c18Pair(r, mkList(types.Str, val.Str("1")), mkList(types.Str, val.Str("1 ")), false)
+		c18Pair(r, val.Just(types.Str, val.Str("")), val.Just(types.Str, val.Str(" ")), false)
+		c18Pair(r, mkList(types.Num, n(1), n(2)), mkList(types.Num, n(12)), false)
+		r.Count("pair:unquoted-rendering-coincides")
+	}
 	c18ForceLang = false
 	// host times denoting one instant in different locations (direct predicate only: the model's time values carry no
 	// location, see DESIGN.md section 8)
